@@ -7,7 +7,7 @@ export GOFLAGS= GOPROXY=off GOSUMDB=off GOTOOLCHAIN=local
 set -u
 git -C $wt checkout -q -- . && git -C $wt clean -fdq
 git -C $wt apply $out/patch.diff || { echo "APPLY FAILED"; exit 1; }
-cp $out/demo_test.go.txt $wt/$pkg/zz_seeded_demo_test.go
+mkdir -p $wt/$pkg; cp $out/demo_test.go.txt $wt/$pkg/zz_seeded_demo_test.go
 relpkg=./${pkg#$mod/}; [ "$pkg" = "$mod" ] && relpkg=.
 ov=""; [ "$mod" = "." ] && ov="-overlay $wt.overlay.json"
 (cd $wt/$mod && go test $ov -count=1 -vet=off -run "$rx" $relpkg > $out/demo_with.log 2>&1); with=$?
